@@ -201,7 +201,7 @@ impl Monitor for C13 {
          otherwise the result is walked for well-formedness, quotiented on the model side, typed F(A)->F(B), isomorphic to the model substitution and to the strict path's result computed by \
          the library; the witness has one segment per input node of size |F(label)|, its nodes (through the quotient map) carry the labels F(label)[j], pushing both input interfaces \
          through witness and quotient gives the output interfaces, and an isomorphism to the model exists that maps the witness nodes of node i onto the model's block of i. \
-         non-trivial = >=1 hyperedge and an object whose image has length != 1, or a refusal; distinct = hash of (spec, diagram)."
+         non-trivial = >=1 hyperedge and an object whose image has length != 1, or a refusal; distinct = hash of (spec, diagram). Also: refusal with label-conflicting pending pairs, and the library's own Identity functor through the native path (witness = one singleton segment per node)."
     }
     fn corpus_len(&self) -> u64 {
         4
